@@ -337,7 +337,10 @@ def main():
     violations = 0
     replay_path = None
     if prop_fail:
-        prop_fail.sort(key=lambda r: len(case_key(r["case"])))
+        def _not_run(r):
+            i = r["impl"]
+            return isinstance(i, dict) and str(i.get("where", "")).startswith("not run")
+        prop_fail.sort(key=lambda r: (_not_run(r), len(case_key(r["case"]))))
         best = prop_fail[0]
         original_len = len(case_key(best["case"]))
         if not args.replay:
